@@ -124,6 +124,14 @@ func (s *Stats) Probe(k string) {
 	s.Probes[k]++
 	s.mu.Unlock()
 }
+func (s *Stats) ProbeN(k string, n int) {
+	if s.Off || n == 0 {
+		return
+	}
+	s.mu.Lock()
+	s.Probes[k] += n
+	s.mu.Unlock()
+}
 func (s *Stats) Op(k string) {
 	if s.Off {
 		return
